@@ -759,19 +759,39 @@ def pred_c11(line, st):
 
 
 PROPS["C06"]["areas"] = [("groups", {"quick": 160, "thorough": 800}, [], "san")]
+from pred_c11b import pred_c11b  # noqa: E402  (QR cards, keys, groups, protocol state)
+
+
+def pred_c11_all(line, st):
+    if line.startswith(("io2.", "prop.io2.")):
+        return pred_c11b(line, st)
+    return pred_c11(line, st)
+
+
+def c11_final(st):
+    if "io2_roundtrips" in st or "io2_pairs" in st:
+        if st.get("io2_roundtrips", 0) < 50 or st.get("io2_pairs", 0) < 50:
+            return "harness: the io2 area produced too few round trips (%s judged by the harness, %s re-judged from export/import line pairs)" % (st.get("io2_roundtrips", 0), st.get("io2_pairs", 0))
+    return None
+
+
 PROPS["C11"] = dict(
     module="TmcgProps.C11",
-    areas=[("io", {"quick": 200, "thorough": 1500}, [], "san")],
+    areas=[("io", {"quick": 200, "thorough": 1500}, [], "san"),
+           ("io2", {"quick": 64, "thorough": 300}, [], "san")],
     obligations=[("Tmcg.C11.int62_roundtrip", "full"), ("Tmcg.C11.card_import_export", "full"),
                  ("Tmcg.C11.secret_import_export", "full"), ("Tmcg.C11.stack_import_export", "full"),
                  ("Tmcg.C11.stack_import_refuses_size", "full"), ("Tmcg.C11.stacksecret_import_export", "full"),
-                 ("Tmcg.C11.stacksecret_import_is_bijection", "full"), ("Tmcg.C11.stack_export_import_export", "full")],
-    predicate=pred_c11,
+                 ("Tmcg.C11.stacksecret_import_is_bijection", "full"), ("Tmcg.C11.stack_export_import_export", "full")]
+                + [("Tmcg.C11." + n, "full") for n in ["import_export_vtmf'", "import_export_qr'", "import_export_com'", "import_export_trap'", "import_export_vrhe'", "import_export_eotp'", "import_export_vsshe'", "import_export_vss'", "import_export_gdkg'", "import_export_rvss'", "import_export_cdkg'", "import_export_dss'", 'export_import_export_vtmf', 'export_import_export_qr', 'export_import_export_com', 'export_import_export_trap', 'export_import_export_vrhe', 'export_import_export_eotp', 'export_import_export_vsshe', 'export_import_export_vss', 'export_import_export_gdkg', 'export_import_export_rvss', 'export_import_export_cdkg', 'export_import_export_dss', 'import_export_gdkg_keys', 'import_export_tcard', 'import_export_tsecret', 'import_export_tstack', 'import_export_tsts', 'export_import_export_tcard', 'export_import_export_tsecret', 'export_import_export_tstack', 'export_import_export_tsts', 'import_export_pub', 'import_export_sec', 'readPub_line', 'readRing_text', 'export_import_export_pub', 'export_import_export_sec', 'importVss_refuses_n']],
+    predicate=pred_c11_all, final=c11_final,
     level_text="Round-trip theorems in Lean 4 for the text transport encoding: base-62 integers (zero, negative, any length), discrete-log cards, card secrets, stacks of every admissible size and stack secrets with bijective index component: import(export x) = x, hence identical re-export. "
                "The codec model (mpz_set_str/mpz_get_str in base 62, strtoul, the cm/gs/nx parse helpers, c_str truncation) is compared with the real importers on valid and mutated texts. "
-               "Partial: QR-encoded cards, keys, group parameter streams and persisted protocol states are not yet modelled.",
+               "Second part (area io2): the same for QR-encoded cards, card secrets and their stacks, public and secret keys (import incl. precompute, operator>> line by line, key rings), the group / commitment parameter streams (BarnettSmartVTMF_dlog, its GroupQR variant, PedersenCommitmentScheme, PedersenTrapdoorCommitmentScheme, VRHE, NaorPinkasEOTP, GrothVSSHE with the inner SKC) and persisted protocol state (PedersenVSS, GJKR DKG incl. PublishVerificationKeys, CGJKR RVSS/ZVSS/DKG/DSS): import(export x) = x and identical re-export for every well-formed x, where well-formed is a decidable predicate evaluated on every object the harness exports (io2.wf lines). All 32 x 10 card dimensions, n = 1..7 with every t <= n, 4094-digit integers. "
+               "Types without a text form (TMCG_OpenStack, TMCG_PublicKeyRing as a whole, JareckiLysyanskaya RVSS/EDCF, GJKR NTS, PUBROTZK) have no round trip to state.",
     level_note=LEVEL_NOTE,
-    assumptions=["partial: types beyond the discrete-log card family are covered neither by theorems nor by the correspondence yet"],
+    assumptions=["std::istream / std::getline / stringstream >> size_t are modelled after libstdc++ (unread text + good flag)",
+                 "fields lost by design are outside the round trip: PedersenTrapdoorCommitmentScheme does not export sigma; the GroupQR importer recomputes g; key fields containing the separator '|' are not escaped (wf excludes them)"],
 )
 
 
